@@ -154,6 +154,10 @@ class Opts:
         self.frozen = True
         self.nillable_empty_str = False   # "" in nillable str elements (DESIGN §5, triage item)
         self.json_safe = False        # keep the dictionary image unambiguous (C04): see json_kinds()
+        self.nesting = True           # inner classes / nested enums
+        self.mixin_enums = False      # class E(str, Enum) / IntEnum style enumerations (C18 only)
+        self.unrepresentable = False  # values XML/JSON cannot tell from "use the default" (C18 only): [] against a
+                                      # non-empty default factory, None against a non-None default
         self.__dict__.update(kw)
 
 
@@ -183,7 +187,10 @@ class _Builder:
             vals = [enc(x) for x in d(st.lists(st.decimals(allow_nan=False, allow_infinity=False, places=2, min_value=-999, max_value=999), min_size=n, max_size=n, unique=True))]
         else:
             vals = [{"qn": "{%s}%s" % (u, l)} for u, l in d(st.lists(st.tuples(st.sampled_from(["urn:q", "urn:a"]), st.sampled_from(["a", "b", "c"])), min_size=n, max_size=n, unique=True))]
-        self.enums.append({"name": f"E{len(self.enums)}", "base": base, "values": vals})
+        e = {"name": f"E{len(self.enums)}", "base": base, "values": vals}
+        if self.o.mixin_enums and base in ("str", "int") and d(st.integers(0, 2)) == 0:
+            e["mixin"] = True
+        self.enums.append(e)
         return len(self.enums) - 1
 
     # -- classes ----------------------------------------------------------
@@ -266,6 +273,7 @@ class _Builder:
             f.update(card="one", tokens=0, types=[{"p": "int"}])
             f.pop("default", None)
             f.pop("required", None)
+            f.pop("default_tokens", None)
             c["fields"].append(f)
         seq_open = None
         # a mixed wildcard owns all child content of its element (also inherited content)
@@ -424,6 +432,8 @@ class _Builder:
             if d(st.integers(0, 6)) == 0 and len(f["types"]) == 1 and not self.enum_has_ws(f["types"]):
                 f["tokens"] = 1
                 f["card"] = "list"
+            if f["tokens"] == 1 and d(st.integers(0, 3)) == 0:
+                self.default_tokens(f)
             if f["card"] == "default":
                 f["default"] = self.default_for(f, "attr")
                 f["card"] = "opt"
@@ -463,7 +473,9 @@ class _Builder:
                 # serializer and parser hand a namespace-less child class different parent namespaces when the
                 # field namespace differs from the class namespace (DESIGN §5): such children carry their own
                 self.own_namespace(f["types"][0]["c"])
-            if d(st.integers(0, 5)) == 0 and f["card"] != "one":
+            if f["tokens"] == 1 and d(st.integers(0, 3)) == 0:
+                self.default_tokens(f)
+            if d(st.integers(0, 5)) == 0 and f["card"] != "one" and "default_tokens" not in f:
                 # an instance without any content in a nillable field is written as xsi:nil (documented meaning of
                 # nillable: "present even without meaningful content"), so only always-non-empty classes qualify
                 # (and an empty list of token lists in a nillable field reads back as one nil entry)
@@ -553,6 +565,14 @@ class _Builder:
             return f
         raise KeyError(kind)
 
+    def default_tokens(self, f):
+        """Non-empty default for a tokens field: xsdata generates `default_factory=lambda: [...]` for these."""
+        t = f["types"][0]
+        if "p" not in t or t["p"] in ("xperiod",):
+            return
+        n = self.draw(st.integers(1, 2))
+        f["default_tokens"] = [self.draw(prim_value(t["p"], "token")) for _ in range(n)]
+
     def default_for(self, f, where):
         """A non-None default (encoded) for a single-typed primitive/enum field, or None."""
         d = self.draw
@@ -594,6 +614,8 @@ def model_specs(draw, opts=None):
     spec = {"ns": draw(st.sampled_from([None, None, "urn:m"])) if o.namespaces else None,
             "enums": b.enums, "classes": b.classes, "root": root}
     normalize_namespaces(spec)
+    if o.nesting:
+        nest(draw, spec)
     # a wildcard attribute map also receives the xsi:type / xsi:nil attribute of its element (recorded finding,
     # DESIGN §5): classes that can carry one keep their maps confined to ##local / an explicit URI
     exposed = {c["base"] for c in b.classes if c["base"] is not None} | {i for i, c in enumerate(b.classes) if c["base"] is not None}
@@ -607,6 +629,39 @@ def model_specs(draw, opts=None):
             if f["kind"] == "Attributes" and f.get("wild_ns") in ("##any", "##other"):
                 f["wild_ns"] = "##local"
     return spec
+
+
+def nest(draw, spec):
+    """Turn some enums / leaf classes that are used by exactly one class into inner classes of that class
+    (the shape xsdata generates for anonymous types)."""
+    import json
+    classes = spec["classes"]
+    in_hier = {c["base"] for c in classes if c["base"] is not None} | {i for i, c in enumerate(classes) if c["base"] is not None}
+    users_e = {i: set() for i in range(len(spec["enums"]))}
+    users_c = {i: set() for i in range(len(classes))}
+    for ci, c in enumerate(classes):
+        txt = json.dumps(c["fields"])
+        for ei in users_e:
+            if f'"e": {ei}}}' in txt or f'"enum": [{ei},' in txt:
+                users_e[ei].add(ci)
+        for f in c["fields"]:
+            for t in f["types"] + [t for ch in f.get("choices", ()) for t in ch["types"]]:
+                if "c" in t:
+                    users_c[t["c"]].add(ci)
+            for sub in f.get("subs", ()):
+                users_c[sub].add(-1)
+    for i, c in enumerate(classes):
+        u = users_c[i]
+        if i != spec["root"] and i not in in_hier and len(u) == 1 and -1 not in u and draw(st.integers(0, 2)) == 0:
+            (parent,) = u
+            if parent not in in_hier and classes[parent].get("inner_of") is None and parent != i \
+                    and not any(o.get("inner_of") == i for o in classes):
+                c["inner_of"] = parent
+    for ei, u in users_e.items():
+        if len(u) == 1 and draw(st.integers(0, 2)) == 0:
+            (parent,) = u
+            if parent not in in_hier:
+                spec["enums"][ei]["inner_of"] = parent
 
 
 def _class_refs(spec, c):
@@ -713,12 +768,23 @@ def literal(v):
     return repr(x)
 
 
-def type_src(spec, t):
+def qualname(spec, kind, i, inside=None):
+    """Qualified python name of class/enum i; relative to class `inside` when it is nested directly in it."""
+    if kind == "e":
+        owner, name = spec["enums"][i].get("inner_of"), f"E{i}"
+    else:
+        owner, name = spec["classes"][i].get("inner_of"), spec["classes"][i]["name"]
+    if owner is None or owner == inside:
+        return name
+    return qualname(spec, "c", owner, inside) + "." + name
+
+
+def type_src(spec, t, inside=None):
     if "p" in t:
         return "object" if t["p"] == "object" else PRIMS[t["p"]][0]
     if "e" in t:
-        return f"E{t['e']}"
-    return spec["classes"][t["c"]]["name"]
+        return qualname(spec, "e", t["e"], inside)
+    return qualname(spec, "c", t["c"], inside)
 
 
 def annotation(spec, f):
@@ -782,7 +848,7 @@ def field_src(spec, c, f):
     if kind == "Elements":
         chs = []
         for ch in f["choices"]:
-            inner = [type_src(spec, t) for t in ch["types"]]
+            inner = [type_src(spec, t, c.get("_cid")) for t in ch["types"]]
             ty = inner[0] if len(inner) == 1 else f"Union[{', '.join(inner)}]"
             cp = [f"'name': {ch['name']!r}", f"'type': " + (f"List[{ty}]" if ch.get("tokens") and not c["frozen"] else (f"Tuple[{ty}, ...]" if ch.get("tokens") else ty))]
             if "namespace" in ch:
@@ -803,6 +869,10 @@ def field_src(spec, c, f):
         return f"field(default_factory=dict, {meta})"
     if kind == "Ignore":
         return f"field(default={literal(f['default'])}, {meta})"
+    if "default_tokens" in f:
+        items = ", ".join(literal(v) for v in f["default_tokens"])
+        lit = f"({items},)" if c["frozen"] else f"[{items}]"
+        return f"field(default_factory=lambda: {lit}, {meta})"
     if f["card"] == "list":
         return f"field(default_factory={factory}, {meta})"
     if "default" in f:
@@ -812,34 +882,36 @@ def field_src(spec, c, f):
     return f"field({meta})"
 
 
+def _refs(spec, i):
+    """class ids referenced by class i (field/choice types and base), including those of classes nested in it."""
+    c = spec["classes"][i]
+    out = set()
+    if c["base"] is not None:
+        out.add(c["base"])
+    for f in c["fields"]:
+        for t in f["types"] + [t for ch in f.get("choices", ()) for t in ch["types"]]:
+            if "c" in t:
+                out.add(t["c"])
+    for j, other in enumerate(spec["classes"]):
+        if other.get("inner_of") == i:
+            out |= _refs(spec, j) | {j}
+    return out
+
+
 def source(spec, modname):
     lines = [HEADER]
     if spec.get("ns") is not None:
         lines.append(f"__NAMESPACE__ = {spec['ns']!r}\n")
-    for i, e in enumerate(spec["enums"]):
-        lines.append(f"class E{i}(Enum):")
-        for j, v in enumerate(e["values"]):
-            lines.append(f"    M{j} = {literal(v)}")
-        lines.append("")
-    # classes in dependency order: a class only refers to completed (any id) classes; with
-    # `from __future__ import annotations` order only matters for base classes
-    order = []
 
-    def visit(i):
-        if i in order:
-            return
-        c = spec["classes"][i]
-        if c["base"] is not None:
-            visit(c["base"])
-        # choice metadata holds real type objects, so referenced classes come first (the graph is a DAG)
-        for f in c["fields"]:
-            for t in f["types"] + [t for ch in f.get("choices", ()) for t in ch["types"]]:
-                if "c" in t:
-                    visit(t["c"])
-        order.append(i)
-    for i in range(len(spec["classes"])):
-        visit(i)
-    for i in order:
+    def emit_enum(i, ind):
+        e = spec["enums"][i]
+        mix = {"str": "str, ", "int": "int, "}[e["base"]] if e.get("mixin") else ""
+        lines.append(f"{ind}class E{i}({mix}Enum):")
+        for j, v in enumerate(e["values"]):
+            lines.append(f"{ind}    M{j} = {literal(v)}")
+        lines.append("")
+
+    def emit_class(i, ind):
         c = spec["classes"][i]
         args = []
         for k in ("frozen", "slots", "kw_only"):
@@ -847,26 +919,55 @@ def source(spec, modname):
                 args.append(f"{k}=True")
         if not c.get("eq", True):
             args.append("eq=False")
-        lines.append(f"@dataclass({', '.join(args)})" if args else "@dataclass")
-        base = f"({spec['classes'][c['base']]['name']})" if c["base"] is not None else ""
-        lines.append(f"class {c['name']}{base}:")
-        lines.append(f"    __vid__ = {i}")
+        lines.append(f"{ind}@dataclass({', '.join(args)})" if args else f"{ind}@dataclass")
+        base = f"({qualname(spec, 'c', c['base'])})" if c["base"] is not None else ""
+        lines.append(f"{ind}class {c['name']}{base}:")
+        lines.append(f"{ind}    __vid__ = {i}")
+        for j, e in enumerate(spec["enums"]):
+            if e.get("inner_of") == i:
+                emit_enum(j, ind + "    ")
+        for j, other in enumerate(spec["classes"]):
+            if other.get("inner_of") == i:
+                emit_class(j, ind + "    ")
         m = c["meta"]
         if m:
-            lines.append("    class Meta:")
+            lines.append(f"{ind}    class Meta:")
             for k in ("name", "namespace", "nillable", "target_namespace", "global_type"):
                 if k in m:
-                    lines.append(f"        {k} = {m[k]!r}")
+                    lines.append(f"{ind}        {k} = {m[k]!r}")
             if "elem_gen" in m:
-                lines.append(f"        element_name_generator = {m['elem_gen']}")
+                lines.append(f"{ind}        element_name_generator = {m['elem_gen']}")
             if "attr_gen" in m:
-                lines.append(f"        attribute_name_generator = {m['attr_gen']}")
+                lines.append(f"{ind}        attribute_name_generator = {m['attr_gen']}")
         for f in c["fields"]:
             f2 = dict(f, _frozen=c["frozen"])
-            lines.append(f"    {f['py']}: {annotation(spec, f2)} = {field_src(spec, c, f)}")
+            lines.append(f"{ind}    {f['py']}: {annotation(spec, f2)} = {field_src(spec, dict(c, _cid=i), f)}")
         if not c["fields"] and not m:
-            lines.append("    pass")
+            lines.append(f"{ind}    pass")
         lines.append("")
+
+    for i, e in enumerate(spec["enums"]):
+        if e.get("inner_of") is None:
+            emit_enum(i, "")
+    # top-level classes in dependency order (choice metadata and base classes need real objects; the graph is a DAG)
+    order = []
+
+    def top(i):
+        while spec["classes"][i].get("inner_of") is not None:
+            i = spec["classes"][i]["inner_of"]
+        return i
+
+    def visit(i):
+        if i in order:
+            return
+        for r in sorted(_refs(spec, i)):
+            if top(r) != i:
+                visit(top(r))
+        order.append(i)
+    for i in range(len(spec["classes"])):
+        visit(top(i))
+    for i in order:
+        emit_class(i, "")
     return "\n".join(lines)
 
 
@@ -886,8 +987,13 @@ class Model:
             sys.modules.pop(self.modname, None)
             raise
         self.module = mod
-        self.classes = [getattr(mod, c["name"]) for c in spec["classes"]]
-        self.enums = [getattr(mod, f"E{i}") for i in range(len(spec["enums"]))]
+        def get(path):
+            obj = mod
+            for part in path.split("."):
+                obj = getattr(obj, part)
+            return obj
+        self.classes = [get(qualname(spec, "c", i)) for i in range(len(spec["classes"]))]
+        self.enums = [get(qualname(spec, "e", i)) for i in range(len(spec["enums"]))]
         for i, e in enumerate(self.enums):
             e.__vid__ = i
         self.root = self.classes[spec["root"]]
@@ -1023,6 +1129,10 @@ def any_element(draw, depth=0, top=None):
                                         "attributes": {"map": [[k, v] for k, v in attrs.items()]}}}
 
 
+import contextvars  # noqa: E402
+UNREPRESENTABLE = contextvars.ContextVar("unrepresentable", default=False)
+
+
 def instance_of(draw, spec, cid, cr=False, parent_ns=None):
     c = spec["classes"][cid]
     frozen = c["frozen"]
@@ -1056,15 +1166,19 @@ def instance_of(draw, spec, cid, cr=False, parent_ns=None):
                 kw[py] = _seq(frozen, outer)
             elif f.get("tokens"):
                 n = draw(st.integers(0, 3))
-                if kind == "Text" and f["card"] == "list":
-                    n = max(n, 0)
+                if "default_tokens" in f:
+                    # an empty list is written as "absent", i.e. "use the default": not representable
+                    n = max(n, 1) if not UNREPRESENTABLE.get() else n
+                    if draw(st.integers(0, 2)) == 0:
+                        kw[py] = _seq(frozen, list(f["default_tokens"]))
+                        continue
                 kw[py] = _seq(frozen, [value_for_types(draw, spec, f["types"], "token", cr, frozen) for _ in range(n)])
             elif f["card"] == "list":
                 items = []
                 for _ in range(draw(st.integers(0, 3))):
                     items.append(_elem_value(draw, spec, f, where, cr, frozen, inst_ns))
                 kw[py] = _seq(frozen, items)
-            elif f["card"] == "opt" and "default" not in f and draw(st.integers(0, 2)) == 0:
+            elif f["card"] == "opt" and ("default" not in f or UNREPRESENTABLE.get()) and draw(st.integers(0, 2)) == 0:
                 kw[py] = None
             elif "default" in f and draw(st.integers(0, 2)) == 0:
                 kw[py] = f["default"]
@@ -1131,7 +1245,11 @@ def _elem_value(draw, spec, f, where, cr, frozen, parent_ns=None):
 def model_and_instance(draw, opts=None):
     o = opts or Opts()
     spec = draw(model_specs(o))
-    inst = instance_of(draw, spec, spec["root"], o.cr, None)
+    tok = UNREPRESENTABLE.set(o.unrepresentable)
+    try:
+        inst = instance_of(draw, spec, spec["root"], o.cr, None)
+    finally:
+        UNREPRESENTABLE.reset(tok)
     return {"spec": spec, "inst": inst}
 
 
